@@ -5,26 +5,27 @@
    [verify_finalizes] = DecodeGrandpaJustificationVerifyFinalizes after decoding (target check +
    verifyWithVoterSet), as repaired by fixes/C19-voterset-duplicate-weights.patch and
    fixes/C19-commit-base-sort.patch; the Round / vote graph is replaced by its specification
-   [precommit_ghost].  [members vs ps] = the precommits of set members; [spec_weight vs hs ms b] =
-   the summed weight of the DISTINCT voters with a precommit on b or a descendant of b (per the
-   supplied headers), an equivocator (two different (vote, signature) pairs) counted once on every
-   block.
+   [precommit_ghost] (C20's subject).  [members vs ps] = the precommits of set members;
+   [spec_weight vs hs ms b] = the summed weight of the DISTINCT voters with a precommit on b or a
+   descendant of b (per the supplied headers), an equivocator (two different (vote, signature)
+   pairs) counted once on every block.  [justification_valid_spec] is the property text: target
+   matches, every signature valid, the members' precommits all descend from the lowest one, reach
+   threshold (= more than two thirds) weight on the target or its descendants, no child of the
+   target does (the precommit GHOST is the target), and the headers are exactly the blocks between
+   the precommit targets and the lowest one.
 
-   FULL STATEMENT (the property text), checked on every run by the correspondence harness (the
-   driver evaluates [justification_valid_spec] / [commit_valid_spec] / [voter_set_spec] on the
-   implementation's observables at both widths and in several precommit orders):
-     verify_finalizes vs hs f fn t tn ps = JOk <-> justification_valid_spec vs hs f fn t tn ps = true
-     for every precommit order and both widths.
-   PROVED below: the voter-set part in full (C19_voter_set_spec, C19_voter_set_order_free,
-   C19_threshold_supermajority); for justifications the "only if" half that finality rests on
-   (C19_valid_commit_sound, C19_accept_sound: accepted => target matches, every signature valid,
-   supermajority weight of distinct members on the target or its descendants, every precommit on
-   the chain of the lowest one).  NOT proved in Coq (validated by correspondence only): the "if"
-   half, exactness of the GHOST = target and unused-header conditions, and order independence of
-   the verdict, which is FALSE of the code when equivocators outweigh total - threshold
-   (C19_order_excess_refuted; recorded finding commit-order-dependent-under-excess-equivocation). *)
+   Hypotheses of the iff / order theorems, all part of the property's quantifier or of the recorded
+   finding: [wf] block numbers are consistent with the headers' parent links and the precommits
+   carry the numbers of their blocks ("precommit sets over generated block trees");
+   [excess_equivocation = false]: the equivocating weight is within total - threshold (outside it
+   the verdict of the code depends on the precommit order: C19_order_excess_refuted, finding
+   commit-order-dependent-under-excess-equivocation); the GHOST descent of the model is not
+   ambiguous ([validate_commit = VOk _]; ambiguity needs excess equivocation too, but that
+   implication is not proved).  Block-number width: the repaired code only compares numbers and
+   adds a depth to the base number, the model has no width parameter; the pinned tree's
+   width-dependent comparator is kept as [validate_commit_prefix w] (C19_width_prefix_refuted). *)
 From Coq Require Import List NArith ZArith Bool Permutation.
-From C19 Require Import Model ProofsVoterSet ProofsCommit.
+From C19 Require Import Model ProofsVoterSet ProofsChain ProofsCommit ProofsIff ProofsJust ProofsOrder ProofsMain.
 Import ListNotations.
 Local Open Scope N_scope.
 
@@ -100,6 +101,67 @@ Proof.
 Qed.
 Print Assumptions C19_accept_sound.
 
+(* ValidateCommit declares a commit valid EXACTLY when the order-free specification holds *)
+Theorem C19_commit_iff : forall vs hs num thash tnum ps r,
+  (forall x, In x hs -> num (h_hash x) = num (h_parent x) + 1) ->
+  vs_total vs < 2 * vs_threshold vs ->
+  (forall p, In p ps -> p_num p = num (p_hash p)) ->
+  excess_equivocation vs ps = false ->
+  validate_commit vs hs thash tnum ps = VOk r ->
+  r_valid r = commit_valid_spec vs hs thash tnum ps.
+Proof.
+  intros vs hs num thash tnum ps r wf Hvs. exact (validate_commit_iff vs hs num wf Hvs thash tnum ps r).
+Qed.
+Print Assumptions C19_commit_iff.
+
+(* THE PROPERTY: a justification is accepted iff it is valid *)
+Theorem C19_accept_iff : forall vs hs num fhash fnum thash tnum ps r,
+  (forall x, In x hs -> num (h_hash x) = num (h_parent x) + 1) ->
+  vs_total vs < 2 * vs_threshold vs ->
+  (forall p, In p ps -> p_num p = num (p_hash p)) ->
+  excess_equivocation vs ps = false ->
+  validate_commit vs hs thash tnum ps = VOk r ->
+  (verify_finalizes vs hs fhash fnum thash tnum ps = JOk <->
+   justification_valid_spec vs hs fhash fnum thash tnum ps = true).
+Proof. exact verify_finalizes_iff. Qed.
+Print Assumptions C19_accept_iff.
+
+(* the specification does not depend on the order of the precommits *)
+Theorem C19_spec_order_free : forall vs hs num fhash fnum thash tnum ps ps',
+  (forall x, In x hs -> num (h_hash x) = num (h_parent x) + 1) ->
+  (forall p, In p ps -> p_num p = num (p_hash p)) ->
+  Permutation ps ps' ->
+  commit_valid_spec vs hs thash tnum ps = commit_valid_spec vs hs thash tnum ps'
+  /\ justification_valid_spec vs hs fhash fnum thash tnum ps
+     = justification_valid_spec vs hs fhash fnum thash tnum ps'.
+Proof.
+  intros vs hs num fhash fnum thash tnum ps ps' wf Hn P. split.
+  - exact (commit_valid_spec_perm vs hs num wf thash tnum ps ps' Hn P).
+  - exact (justification_valid_spec_perm vs hs num wf fhash fnum thash tnum ps ps' Hn P).
+Qed.
+Print Assumptions C19_spec_order_free.
+
+(* hence neither does the verdict *)
+Theorem C19_order_free : forall vs hs num fhash fnum thash tnum ps ps' r r',
+  (forall x, In x hs -> num (h_hash x) = num (h_parent x) + 1) ->
+  vs_total vs < 2 * vs_threshold vs ->
+  (forall p, In p ps -> p_num p = num (p_hash p)) ->
+  excess_equivocation vs ps = false ->
+  Permutation ps ps' ->
+  validate_commit vs hs thash tnum ps = VOk r ->
+  validate_commit vs hs thash tnum ps' = VOk r' ->
+  r_valid r = r_valid r'
+  /\ (verify_finalizes vs hs fhash fnum thash tnum ps = JOk <->
+      verify_finalizes vs hs fhash fnum thash tnum ps' = JOk).
+Proof. exact verify_finalizes_order_free. Qed.
+Print Assumptions C19_order_free.
+
+(* every voter set made by NewVoterSet satisfies the sanity hypothesis above *)
+Theorem C19_voter_set_sane : forall ws vs,
+  new_voter_set ws = Some vs -> vs_total vs < 2 * vs_threshold vs.
+Proof. exact new_voter_set_sane. Qed.
+Print Assumptions C19_voter_set_sane.
+
 (* the pinned tree: the comparator `int(a.Number - b.Number)` is never negative for uint32, so
    the base was the first listed target, not the lowest: the same commit was valid at uint64 and
    invalid at uint32, and at uint32 valid in another precommit order *)
@@ -134,3 +196,23 @@ Example C19_nonvacuous :
   /\ justification_valid_spec w_vs [mkHdr 2 1 7] 1 6 1 6 w_pcs = true
   /\ verify_finalizes w_vs w_hs 1 6 1 6 w_pcs = JErr JUnused.
 Proof. destruct good_witness as [H1 [H2 [H3 _]]]. auto. Qed.
+
+(* non-vacuity of the hypotheses of C19_accept_iff / C19_order_free: they hold of the accepted
+   justification above with the numbering b |-> b + 5 *)
+Example C19_iff_nonvacuous :
+  let num := fun b => b + 5 in
+  (forall x, In x [mkHdr 2 1 7] -> num (h_hash x) = num (h_parent x) + 1)
+  /\ vs_total w_vs < 2 * vs_threshold w_vs
+  /\ (forall p, In p w_pcs -> p_num p = num (p_hash p))
+  /\ excess_equivocation w_vs w_pcs = false
+  /\ validate_commit w_vs [mkHdr 2 1 7] 1 6 w_pcs = VOk (mkVR true 3 0 0 0)
+  /\ verify_finalizes w_vs [mkHdr 2 1 7] 1 6 1 6 w_pcs = JOk.
+Proof.
+  cbv zeta. split; [|split; [|split; [|split; [|split]]]].
+  - intros x [<-|[]]. reflexivity.
+  - reflexivity.
+  - intros p [<-|[<-|[<-|[]]]]; reflexivity.
+  - reflexivity.
+  - reflexivity.
+  - reflexivity.
+Qed.
